@@ -55,7 +55,8 @@ def cell_pts(cell, rot_idx: int) -> List[int]:
     return out
 
 
-PATCH_POOL = ["m1", "s1", "m2", "s2", "px", "py"]
+# the two slave names sort differently with and without regard to case ("Sb" < "sa", but "sa" < "sb")
+PATCH_POOL = ["m1", "sa", "m2", "Sb", "px", "py"]
 LABELS = ["g1", "g2", "g3"]
 KINDS = ["arc", "origin", "angle", "spline", "polyLine", "project"]
 
@@ -104,9 +105,9 @@ def gen_program(rng: random.Random, focus: str, pid: int) -> dict:
                 op["patch"][s] = rng.choice(PATCH_POOL)
     merged = []
     if focus in ("vertices", "file") and rng.random() < 0.6:
-        merged.append(["m1", "s1"])
+        merged.append(["m1", "sa"])
         if rng.random() < 0.5:
-            merged.append(["m2", "s2"])
+            merged.append(["m2", "Sb"])
         for a in ops:
             for b in ops:
                 if a is b:
@@ -203,6 +204,13 @@ def gen_program(rng: random.Random, focus: str, pid: int) -> dict:
             pset[name] = settings
     geom = [[lab, ["type searchableSphere", "centre (0 0 0)", f"radius {i + 1}"]] for i, lab in enumerate(LABELS)] \
         if focus in ("file", "addressing", "edges") else []
+    # a geometry declared a second time: the later declaration is the one in force
+    geom_calls = [list(x) for x in geom]
+    if geom and rng.random() < 0.4:
+        again = rng.choice(geom)
+        redecl = [again[0], ["type searchableSphere", "centre (1 2 3)", f"radius {rng.choice([7, 8, 9])}"]]
+        geom_calls.append(redecl)
+        geom = [redecl if g[0] == again[0] else g for g in geom]
     settings = [["scale", "1"]]
     prog_settings = []
     if focus == "file" and rng.random() < 0.4:
@@ -225,7 +233,7 @@ def gen_program(rng: random.Random, focus: str, pid: int) -> dict:
     return {"id": pid, "focus": focus, "ops": ops, "merged": merged, "dflt": dflt, "mods": mods,
             "reassemble": rng.random() < 0.3, "reuse": rng.random() < 0.35,
             "pkind": [[k, v] for k, v in pkind.items()], "psettings": [[k, v] for k, v in pset.items()],
-            "geom": geom, "settings": prog_settings, "exp_settings": settings, "unique_face_labels": unique,
+            "geom": geom, "geom_calls": geom_calls, "settings": prog_settings, "exp_settings": settings, "unique_face_labels": unique,
             "builtin": False, "count": 2}
 
 
